@@ -162,7 +162,7 @@ class TooManyEvents(Exception):
 
 
 def run_asgi_http(app, scope, events=None, fail_send_at=None, fail_exc=OSError, stepper=None,
-                  max_steps=200000, max_events=100000):
+                  max_steps=200000, max_events=100000, disconnect_after_sends=None):
     """Drive one HTTP request. events: receive script (http.request / http.disconnect dicts).
 
     When the script is exhausted receive() parks until the response is complete, then
@@ -170,12 +170,24 @@ def run_asgi_http(app, scope, events=None, fail_send_at=None, fail_exc=OSError, 
     runnable and the response incomplete, the outcome is 'blocked'.
     fail_send_at=k: the k-th send() call (0-based, counting every event) raises fail_exc.
     max_events: send() raises TooManyEvents (and a problem is recorded) beyond that many events.
+    disconnect_after_sends=k: the client goes away once k events were sent (k=0: right after the
+    request script): receive() then answers http.disconnect (a receive() parked at that moment is
+    woken); send() keeps accepting (and recording) events, as the spec makes it a no-op.
     """
     st = stepper or aio.shared()
     res = AsgiResult()
     mon = HttpMonitor(res)
     script = list(events if events is not None else [{'type': 'http.request', 'body': b'', 'more_body': False}])
     state = {'i': 0, 'sends': 0, 'closed': None, 'disconnected': False}
+    res.client_disconnected_at = None
+
+    def _client_gone():
+        if disconnect_after_sends is not None and not state['disconnected'] and \
+                len(res.events) >= disconnect_after_sends:
+            state['disconnected'] = True
+            res.client_disconnected_at = len(res.events)
+            if state['closed'] is not None and not state['closed'].done():
+                state['closed'].set_result(None)
 
     async def receive():
         res.receive_calls += 1
@@ -186,6 +198,7 @@ def run_asgi_http(app, scope, events=None, fail_send_at=None, fail_exc=OSError, 
             if ev.get('type') == 'http.disconnect':
                 state['disconnected'] = True
             return dict(ev)
+        _client_gone()
         if state['disconnected']:
             return {'type': 'http.disconnect'}
         if res.complete:
@@ -210,6 +223,7 @@ def run_asgi_http(app, scope, events=None, fail_send_at=None, fail_exc=OSError, 
             raise TooManyEvents(msg)
         res.events.append(ev)
         mon.on_send(ev)
+        _client_gone()
         if res.complete and state['closed'] is not None and not state['closed'].done():
             state['closed'].set_result(None)
 
